@@ -161,8 +161,7 @@ def run(chk: Check, eng: Engine) -> None:
         if not bad:
             chk.ok(rule, fn.fq, fn.line, f"{name}: no structure write on {sorted(roots)}")
             return
-        for region, fld in bad:
-            w = s.witness.get((region, fld), "")
+        for region, fld, w in [(r_, f_, w_) for (r_, f_) in bad for w_ in (s.witnesses.get((r_, f_)) or [s.witness.get((r_, f_), "")])]:
             hops = [h.strip() for h in w.split("->")]
             accepted = None
             for (hop_fn, afld, marker), why in ACCEPTED.items():
@@ -382,6 +381,33 @@ def run(chk: Check, eng: Engine) -> None:
                     chk.bad("R10-c", eng.relfile(m), n.line, m.fq, f"`{n.text()}` writes hashed field {wrote} without invalidating the memoised hash",
                             "the node (and its ancestors) keep the hash/size of the old structure: equality, set membership and size() are stale",
                             path=cfg.describe_path(p), keyparts=f"no-invalidate|{wrote}|{short(a, 50)}")
+    # memo fields: only the constructor, invalidate_hash and __hash__ may write them (anything else can make them stale)
+    MEMO_WRITERS = {"__init__", "invalidate_hash", "__hash__"}
+    n_memo = 0
+    for f in eng.ix.all_functions:
+        for n in walk_local(f.node):
+            if isinstance(n, (ast.Assign, ast.AugAssign, ast.AnnAssign)):
+                for t in (n.targets if isinstance(n, ast.Assign) else [n.target]):
+                    if isinstance(t, ast.Attribute) and t.attr in ("hash_cache", "_size"):
+                        if isinstance(n, ast.AnnAssign) and n.value is None:
+                            continue
+                        owner_is_tree = f.cls is not None and f.cls.fq in fam and isinstance(t.value, ast.Name) and t.value.id == "self"
+                        if not owner_is_tree:
+                            ty = eng.env(f).type_of(t.value)
+                            if ty and not (ty & fam):
+                                continue
+                            if not ty and not (f.module in tree_modules):
+                                continue
+                        n_memo += 1
+                        if owner_is_tree and f.name in MEMO_WRITERS:
+                            chk.ok("R10-c", f.fq, n.lineno, f"memo field `{t.attr}` written by {f.name}", nontrivial=False)
+                        else:
+                            chk.bad("R10-c", eng.relfile(f), n.lineno, f.fq, f"`{short(n, 70)}` writes the memoised `{t.attr}` outside __init__/invalidate_hash/__hash__",
+                                    "a node can carry a hash or size that was not computed from its current structure (e.g. a copy made without children "
+                                    "that inherits the hash of the full subtree): equality, set membership and size() then disagree with recomputation",
+                                    keyparts=f"memo-writer|{t.attr}|{f.qualname}")
+    if n_memo < 3:
+        raise AnalysisError(f"only {n_memo} writes of the memo fields hash_cache/_size found")
     # outside writers
     PRIV = {"_symbol", "_sender", "_recipient", "_children", "hash_cache", "_size", "_sources"}
     outside_parent = []
@@ -506,6 +532,8 @@ _MU = "src/fandango/evolution/mutation.py"
 _RB = "src/fandango/constraints/repetition_bounds.py"
 _S = "src/fandango/language/search.py"
 MUTANTS = [
+    M("deepcopy-inherits-hash", _T, "        memo[id(self)] = copied\n", "        memo[id(self)] = copied\n        copied.hash_cache = self.hash_cache\n", "R10-c"),
+    M("delete-repetitions-adopts-originals", _RB, "        for child in copy_parent.children[::-1]:\n            repetition_node_id = self._repetition_id", "        for child in tree.children[::-1]:\n            repetition_node_id = self._repetition_id", "R10-b"),
     M("insert-position-by-value", _RB, "        index = index_by_reference(tree, self._ending_rep_tree)\n", "        index = tree.children.index(self._ending_rep_tree) if self._ending_rep_tree in tree.children else None\n", "R10-e"),
     M("split-end-by-value", _T, "        me_idx = index_by_reference(self.parent.children, self)\n", "        me_idx = self.parent.children.index(self)\n", "R10-e"),
     M("slice-adopts-children", _T, "    def set_children(self, children: list[DerivationTree]) -> None:\n        # A slice is a view on nodes that belong to another tree: it lists the selected\n        # nodes but must not adopt them (their parent stays the node they were taken from).\n        self._children = children\n        self.invalidate_hash()\n",
